@@ -101,13 +101,21 @@ def pointwiseMax [Max α] : List (Nat → α) → Except Err (Nat → α)
   | [] => .error .value
   | g :: gs => .ok (fun c => gs.foldl (fun m h => max m (h c)) (g c))
 
+/-- `if normalize_additive: for value in additive_values: value /= value[-1]` -/
+def normalizeEach [Div α] [Zero α] [DecidableEq α] (n : Nat) (b : Bool) (games : List (Nat → α)) :
+    Except Err (List (Nat → α)) :=
+  if b then games.mapM (divByGrand n) else .ok games
+
+/-- `if normalize: osx_values = osx_values / osx_values[-1]` -/
+def normalizeIf [Div α] [Zero α] [DecidableEq α] (n : Nat) (b : Bool) (v : Nat → α) : Except Err (Nat → α) :=
+  if b then divByGrand n v else .ok v
+
 /-- `xos` for the drawn weight vectors `adds` (one per additive game, in draw order). -/
 def xos [Add α] [Zero α] [Max α] [Div α] [Neg α] [DecidableEq α] (n : Nat) (adds : List (Nat → α))
     (normalize normalizeAdditive : Bool) : Except Err (Nat → α) := do
-  let games := adds.map additive
-  let games ← if normalizeAdditive then games.mapM (divByGrand n) else pure games
+  let games ← normalizeEach n normalizeAdditive (adds.map additive)
   let osx ← pointwiseMax games
-  let osx ← if normalize then divByGrand n osx else pure osx
+  let osx ← normalizeIf n normalize osx
   pure (fun c => - osx c)
 
 /-- `np.max(singletons[players], initial=0)` negated: the XS (unit demand) value. -/
@@ -184,17 +192,29 @@ def coverageOf (sets : Nat → List Nat) (c : Nat) : Int := - ((coverUnion sets 
 def powersetList (n mult : Nat) : List (List Nat) :=
   (powerset (List.range (mult * n))).filter (fun x => x.length != 0)
 
+/-- `powerset_list[k]`: IndexError outside the list -/
+def lookupSet (pl : List (List Nat)) (k : Nat) : Except Err (List Nat) :=
+  match pl[k]? with
+  | some s => .ok s
+  | none => .error .index
+
+/-- the set of player `i`; rows `i ≥ len(set_indices) ≥ n` are never read for a coalition `< 2^n` -/
+def setOfList (sets : List (List Nat)) (i : Nat) : List Nat :=
+  match sets[i]? with
+  | some s => s
+  | none => []
+
 /-- `covg_fn_generator` for drawn `set_indices`: look the sets up, then per coalition the code's own
     `assert uni or coalition.id == 0`. -/
-def coverage (n mult : Nat) (idx : List Nat) : Except Err (Nat → Int) := do
-  let pl := powersetList n mult
+def coverage (n mult : Nat) (idx : List Nat) : Except Err (Nat → Int) :=
   -- `set_indices[i]` for a member `i < n` of some coalition: IndexError when fewer than n indices were drawn
-  if idx.length < n then throw Err.index
-  let sets ← idx.mapM (fun k => match pl[k]? with | some s => pure s | none => throw Err.index)
-  -- rows `i ≥ idx.length ≥ n` are never read for a coalition `< 2^n`
-  let setOf : Nat → List Nat := fun i => match sets[i]? with | some s => s | none => []
-  if (allCoalitions n).all (fun c => c == 0 || !(coverUnion setOf c).isEmpty) then pure (coverageOf setOf)
-  else throw Err.assert
+  if idx.length < n then Except.error Err.index else
+  match idx.mapM (lookupSet (powersetList n mult)) with
+  | Except.error e => Except.error e
+  | Except.ok sets =>
+    if (allCoalitions n).all (fun c => c == 0 || !(coverUnion (setOfList sets) c).isEmpty) then
+      Except.ok (coverageOf (setOfList sets))
+    else Except.error Err.assert
 
 end Gen
 end ICG
